@@ -9,6 +9,7 @@ import (
 	"crypto/sha1"
 	"encoding/json"
 	"fmt"
+	"hash/fnv"
 	"io"
 	"os"
 	"os/exec"
@@ -39,13 +40,13 @@ func infraFail(format string, a ...interface{}) {
 }
 
 type Ctx struct {
-	Prop    string
-	Tier    string
-	Seed    int64
-	Scratch string
-	Start   time.Time
-	Ev      *Evidence
-	Workers int
+	Prop       string
+	Tier       string
+	Seed       int64
+	Scratch    string
+	Start      time.Time
+	Ev         *Evidence
+	Workers    int
 	phaseStart time.Time
 
 	mu         sync.Mutex
@@ -53,7 +54,7 @@ type Ctx struct {
 	known      map[string]int
 	drift      int
 	samples    []interface{}
-	distinct   map[string]struct{}
+	distinct   map[[16]byte]struct{}
 }
 
 func newCtx(prop, tier string) *Ctx {
@@ -74,7 +75,7 @@ func newCtx(prop, tier string) *Ctx {
 		}
 	}
 	c := &Ctx{Prop: prop, Tier: tier, Seed: seed, Scratch: scratch, Start: time.Now(), Workers: workers,
-		known: map[string]int{}, distinct: map[string]struct{}{}}
+		known: map[string]int{}, distinct: map[[16]byte]struct{}{}}
 	c.Ev = &Evidence{PropertyID: prop, Tier: tier, Seed: seed, Level: "model_checking"}
 	c.Ev.Coverage.TLCRuns = []TLCRunInfo{}
 	return c
@@ -102,9 +103,15 @@ func (c *Ctx) pick(q, t int) int {
 	return t
 }
 
+// addDistinct counts distinct keys by a 128-bit hash (the keys are whole JSON observations: millions of them
+// in the thorough tier do not fit in memory as strings)
 func (c *Ctx) addDistinct(key string) {
+	h := fnv.New128a()
+	h.Write([]byte(key))
+	var k [16]byte
+	h.Sum(k[:0])
 	c.mu.Lock()
-	c.distinct[key] = struct{}{}
+	c.distinct[k] = struct{}{}
 	c.mu.Unlock()
 }
 
@@ -134,23 +141,23 @@ type TLCRunInfo struct {
 }
 
 type Coverage struct {
-	States       int64                  `json:"states"`
-	Transitions  int64                  `json:"transitions"`
-	Traces       int64                  `json:"traces_validated_against_impl"`
-	Samples      []interface{}          `json:"samples"`
-	Evaluations  int64                  `json:"evaluations"`
-	DistinctNT   int64                  `json:"distinct_nontrivial"`
-	Rule         string                 `json:"rule"`
-	Exhaustive   bool                   `json:"exhaustive"`
-	CheckerCmd   string                 `json:"checker_cmd"`
-	TrustedBase  []string               `json:"trusted_base"`
-	TLCRuns      []TLCRunInfo           `json:"tlc_runs"`
-	StepsCompared int64                 `json:"steps_compared_with_impl"`
-	Configs      int64                  `json:"replay_configurations"`
-	TraceEvents  int64                  `json:"recorded_events_validated_by_tlc"`
-	Drift        int                    `json:"conformance_drift"`
-	KnownFindings map[string]int        `json:"known_findings_hit,omitempty"`
-	Extra        map[string]interface{} `json:"extra,omitempty"`
+	States        int64                  `json:"states"`
+	Transitions   int64                  `json:"transitions"`
+	Traces        int64                  `json:"traces_validated_against_impl"`
+	Samples       []interface{}          `json:"samples"`
+	Evaluations   int64                  `json:"evaluations"`
+	DistinctNT    int64                  `json:"distinct_nontrivial"`
+	Rule          string                 `json:"rule"`
+	Exhaustive    bool                   `json:"exhaustive"`
+	CheckerCmd    string                 `json:"checker_cmd"`
+	TrustedBase   []string               `json:"trusted_base"`
+	TLCRuns       []TLCRunInfo           `json:"tlc_runs"`
+	StepsCompared int64                  `json:"steps_compared_with_impl"`
+	Configs       int64                  `json:"replay_configurations"`
+	TraceEvents   int64                  `json:"recorded_events_validated_by_tlc"`
+	Drift         int                    `json:"conformance_drift"`
+	KnownFindings map[string]int         `json:"known_findings_hit,omitempty"`
+	Extra         map[string]interface{} `json:"extra,omitempty"`
 }
 
 type Evidence struct {
@@ -334,21 +341,21 @@ func (c *Ctx) finish() {
 // TLC runner
 
 type TLCOpts struct {
-	Module   string   // root module file name without .tla (must exist in spec/ or be given in ExtraFiles)
-	Cfg      string   // cfg text
-	Purpose  string   // free text for the evidence
-	Simulate bool
-	Num      int // simulate: number of traces
-	Depth    int // simulate: trace depth
-	Seed     int64
-	Workers  int
-	Timeout  time.Duration
-	Coverage bool
-	Extra    map[string]string // extra files (name -> content) written to the run dir
-	Env      []string
-	OnTable  func(line []byte) // called for every "TABLE" line
-	OnBeh    func(line []byte) // called for every "BEH" line (JSON payload, unescaped), possibly concurrently? no: sequentially
-	DFS      bool
+	Module    string // root module file name without .tla (must exist in spec/ or be given in ExtraFiles)
+	Cfg       string // cfg text
+	Purpose   string // free text for the evidence
+	Simulate  bool
+	Num       int // simulate: number of traces
+	Depth     int // simulate: trace depth
+	Seed      int64
+	Workers   int
+	Timeout   time.Duration
+	Coverage  bool
+	Extra     map[string]string // extra files (name -> content) written to the run dir
+	Env       []string
+	OnTable   func(line []byte) // called for every "TABLE" line
+	OnBeh     func(line []byte) // called for every "BEH" line (JSON payload, unescaped), possibly concurrently? no: sequentially
+	DFS       bool
 	Constants string
 }
 
